@@ -98,6 +98,26 @@ CHECKS = {
              "unknown_class_error with that id (method_table_error for final) before any definition event or null "
              "v-table pointer.",
         design="5/C15"),
+    "C16": dict(
+        technique="ThreadSanitizer on a multi-threaded stress workload + per-thread comparison with sequential answers",
+        text="Exploration: 4-16 threads dispatch through every route, resolve, build / copy / move / convert "
+             "virtual_ptrs and take erroring calls on 2-3 policies while another thread registers, updates and calls "
+             "an unrelated policy with the same class ids; every result is compared with the answer computed "
+             "single-threaded and the whole runs under ThreadSanitizer (reports de-duplicated by outermost yomm2 frame); "
+             "overlap actually observed is recorded.",
+        design="5/C16"),
+    "C18": dict(
+        technique="model-based runtime monitor: static_list vs vector model, exhaustive bounded enumeration + random sequences + real catalogs",
+        text="Exhaustive enumeration of every legal push/remove/clear sequence up to length 9 over 4 nodes (10 over 5 in "
+             "thorough) against a vector model, plus random long sequences and the policy's real catalogs driven through "
+             "the registration operations, ASan/UBSan and BOOST_ASSERT on.",
+        design="5/C18"),
+    "C19": dict(
+        technique="runtime monitor: parser over the generator's forward declarations vs expected name set; samples compiled",
+        text="Exploration: random name sets with adversarial prefixes and grammar-generated type descriptions are given "
+             "to the real generator; its output is parsed and the declared qualified names compared with the expected "
+             "set; samples are compiled by g++ and clang++.",
+        design="5/C19"),
     "C17": dict(
         technique="runtime monitor: update report vs. exhaustive oracle enumeration of argument tuples",
         text="Exploration: the report returned by the real update is compared with an exhaustive enumeration of all "
